@@ -201,6 +201,8 @@ def new_flag(ex, e, st):
     outs = []
     for s1, vals in ex.evs(e.args, st):
         s1 = s1.copy(); f = fresh('flag', IntSort())
+        for other in s1.ghost.get('flags', ()): s1.assume(f != other)          # a new object
+        s1.ghost['flags'] = tuple(s1.ghost.get('flags', ())) + (f,)
         s1.heap['_value'] = Store(s1.comp('_value', BoolSort()), f, truth(vals[0], s1))
         outs.append((s1, ZV('ref', f, 'Flag')))
     return outs
@@ -477,3 +479,350 @@ def verify_reconfig(run):
                            'for time_of_day in self._times.range_endpoints()#1': inv_td_add},
                calls={'self._times.range_endpoints': range_endpoints_call, 'self._parse3': parse3_call, 'dt.time': midnight_call,
                       'self._cron.dtnow': cron_dtnow})
+
+
+new_span = Function('new_span', Val, Val)          # ti.DateTimeInterval(span) (C13)
+
+
+def dti_call(ex, e, st):
+    outs = []
+    for s1, vals in ex.evs(e.args, st):
+        a = to_val(vals[0], s1)
+        ok = s1.copy(); ex.emit(ok, rec('DateTimeInterval'))
+        for f in ('_interval', '_RCLOSED_INTERVAL'): ok.havoc_field(f)
+        sp = new_span(a); T = View(ok)
+        ok.assume(Val.is_Obj(sp), interval_wf(T, Val.ref(sp)), Not(T.f('_RCLOSED_INTERVAL', Val.ref(sp))))
+        outs.append((ok, ZV('val', sp)))
+        for cls in ('ValueError', 'TypeError'):
+            bad = s1.copy(); ex.emit(bad, rec('DateTimeInterval')); bad.label(f'DateTimeInterval:{cls}')
+            outs.append((bad, Raise(PExc(cls, val=Val.Obj(fresh('exc', IntSort())), where='callee'))))
+    return outs
+
+
+def span_endpoint_times_ok(iv_obj):
+    x = Const('x!se', Val)
+    return ForAll([x], Implies(endpoints(iv_obj)[x], And(is_time(dt_time_of(x)), t_tzinfo(dt_time_of(x)) == Val.VNone)))
+
+
+def ts_dtnow(ex, e, st):
+    outs = []
+    for s1, r in cron_dtnow(ex, e, st): outs.append((s1, r))
+    return outs
+
+
+TS_EFFECTS = tuple(dict.fromkeys(DELIVERY + ('_span', '_alarms', '_value', 'wq_len', '_interval', '_RCLOSED_INTERVAL')))
+
+
+@contract('TimeSpan._event_reconfig', qual=QT + 'TimeSpan._event_reconfig', modifies=TS_EFFECTS, self_cls='TimeSpan')
+def _ts_reconfig(c):
+    me = c.z('self')
+    cron = c.pre('_cron', me)
+    old = c.pre('_span', me)
+    c.requires('configuration', And(Val.is_Obj(old), interval_wf(c.S, Val.ref(old)), span_endpoint_times_ok(Val.ref(old))))
+    c.requires('cron_table_well_formed', alarms_wf(c.S, cron))
+    c.requires('a_cron_client', has_recalc(me))
+    c.requires('endpoints_of_any_span_have_naive_times', span_endpoint_times_ok(Val.ref(new_span(c.v('span')))))
+    c.raises('ValueError', unchanged=False, label='bad_interval_specification')
+    c.raises('TypeError', unchanged=False, label='bad_interval_specification')
+    c.raises('DeliveryError', unchanged=False, label='delivery_of_an_output_event_failed')
+    if not c.verifying: return
+    new = c.post('_span', me)
+    x = Const('x!rs', Val)
+    now = c.T.g('now_value')
+    c.ensures('registered_for_the_time_of_every_endpoint_that_is_not_in_the_past',
+              ForAll([x], Implies(And(endpoints(Val.ref(new))[x], dtkey(dt_date_of(x)) >= dtkey(dt_date_of(now))), registered(c.T, cron, dt_time_of(x), me))))
+    c.ensures('output_follows_the_new_span_now', c.post('_output', me) ==
+              set_output_result(c.T.g('output_before_recalc'), Val.B(in_interval(c.T, 'DateTimeInterval', Val.ref(new), now))))
+    def expected(k, r, st):
+        g = st.ghost
+        fn = z3.simplify(Rec.fn(r)).as_string()
+        if fn == 'remove_block':
+            return [('old_registrations_are_removed_first', And(g['phase'] == 0, not g['parsed'], Rec.recv(r) == Val.Obj(cron), Rec.a1(r) == Val.Obj(me)))]
+        if fn == 'DateTimeInterval':
+            goals = [('the_new_span_is_parsed_once', And(g['phase'] == 0, not g['parsed']))]; g['parsed'] = True
+            return goals
+        if fn == 'dtnow':
+            goals = [('the_clock_is_read_once_for_registration_and_output', And(g['phase'] == 0, not g['clock']))]; g['clock'] = True
+            return goals
+        if fn == 'add_block':
+            return [('registrations_for_the_new_endpoints', And(g['phase'] == 0, g['parsed'], g['clock'], Rec.recv(r) == Val.Obj(cron), Rec.a1(r) == Val.Obj(me)))]
+        if fn == 'reload':
+            goals = [('cron_is_reloaded_after_the_last_change', And(g['phase'] == 0, g['parsed'], g['clock'], Rec.recv(r) == Val.Obj(cron)))]; g['phase'] = 3
+            return goals
+        if fn == 'recalc':
+            goals = [('output_recomputed_for_the_same_instant', And(g['phase'] == 3, Rec.recv(r) == Val.Obj(me), Rec.a0(r) == g['now_value']))]
+            g['phase'] = 4; g['output_before_recalc'] = st.readz('_output', me)
+            return goals
+        return [('no_other_call', BoolVal(False))]
+    c.expect_trace(expected, None, normal_len=None, predicate=True)
+    c.ensures('all_steps_done', c.T.g('phase') == 4)
+
+
+def inv_ts_remove(lc):
+    me = as_kind(lc.pre.args['self'], Ref()); cron = lc.pre.f('_cron', me)
+    st = lc.st
+    return [('table_well_formed', alarms_wf(st, cron)),
+            ('nothing_else_changed', And(st.f('_span', me) == lc.pre.f('_span', me), st.f('_cron', me) == cron, st.st.ghost['phase'] == 0, BoolVal(not st.st.ghost['parsed']),
+                                         st.f('_needs_reload', cron) == lc.pre.f('_needs_reload', cron)))]
+
+
+def inv_ts_add(lc):
+    me = as_kind(lc.pre.args['self'], Ref()); cron = lc.pre.f('_cron', me)
+    st = lc.st; x = Const('x!ja', Val)
+    now = st.st.ghost['now_value']
+    return [('table_well_formed', alarms_wf(st, cron)),
+            ('visited_future_endpoints_are_registered', ForAll([x], Implies(And(lc.done[x], dtkey(dt_date_of(x)) >= dtkey(dt_date_of(now))),
+                                                                         registered(st, cron, dt_time_of(x), me)))),
+            ('nothing_else_changed', And(st.f('_span', me) == lc.entry.f('_span', me), st.f('_cron', me) == cron, st.st.ghost['phase'] == 0, BoolVal(st.st.ghost['parsed'] and st.st.ghost['clock']),
+                                         st.whole('_interval') == lc.entry.whole('_interval'), st.whole('_RCLOSED_INTERVAL') == lc.entry.whole('_RCLOSED_INTERVAL'),
+                                         st.whole('_output') == lc.entry.whole('_output'), now == lc.entry.st.ghost['now_value'],
+                                         st.f('_needs_reload', cron) == lc.pre.f('_needs_reload', cron)))]
+
+
+def verify_ts_reconfig(run):
+    H = {'attr': ATTRS, 'contains': td_contains, 'order': c13.order_hook}
+    G = {'phase': 0, 'parsed': False, 'clock': False, 'now_value': Const('now0', Val), 'output_before_recalc': Const('out0', Val)}
+    run.verify('TimeSpan._event_reconfig', cls='TimeSpan', hooks=H, ghost=G,
+               invariants={'for datetime in self._span.range_endpoints()': inv_ts_remove,
+                           'for datetime in self._span.range_endpoints()#1': inv_ts_add},
+               calls={'self._span.range_endpoints': range_endpoints_call, 'ti.DateTimeInterval': dti_call, 'self._cron.dtnow': ts_dtnow,
+                      'datetime.time': now_time, 'datetime.date': now_date, 'now.date': now_date})
+
+
+# ---- Cron._maintask: the scheduler loop ---------------------------------------------------------------------------------------------------------------
+t_hour = Function('t_hour', Val, IntSort()); t_min = Function('t_min', Val, IntSort())
+t_sec = Function('t_sec', Val, IntSort()); t_us = Function('t_us', Val, IntSort())
+DAY = 86400
+
+
+def time_ok_v(t): return And(0 <= t_hour(t), t_hour(t) < 24, 0 <= t_min(t), t_min(t) < 60, 0 <= t_sec(t), t_sec(t) < 60, 0 <= t_us(t), t_us(t) < 1000000)
+
+
+def tod(t):
+    """seconds since midnight (a real number)"""
+    return ToReal(3600 * t_hour(t) + 60 * t_min(t) + t_sec(t)) + ToReal(t_us(t)) / 1000000
+
+
+def cyc(d):
+    """a time-of-day difference taken the short way round the clock: into (-12 h, +12 h]"""
+    return If(d > DAY / 2, d - DAY, If(d <= -DAY / 2, d + DAY, d))
+
+
+def time_attr(fn):
+    def h(ex, st, o):
+        if isinstance(o, ZV) and o.kind == 'val': return [(st, ZV('int', fn(o.z)))]
+        return None
+    return h
+
+
+def mt_dtnow(ex, e, st):
+    """self.dtnow(): whatever the system clock shows now (it may have been stepped)"""
+    d = fresh('nowdt', Val); st = st.copy()
+    st.ghost['in_reset'] = False
+    st.assume(datetime_ok(d), time_ok_v(dt_time_of(d)))
+    return [(st, ZV('val', d))]
+
+
+def mt_sorted(ex, e, st):
+    """sorted(_SET24.union(self._alarms)): the full hours and the alarm times, strictly increasing"""
+    me = as_kind(st.env['self'], Ref(), st)
+    tt = fresh('timetable', SeqArr); n = fresh('tlen', IntSort())
+    i, j = Int('i!tt'), Int('j!tt')
+    st = st.copy()
+    a = alarms(View(st), me)
+    st.assume(n >= 24,
+              ForAll([i], Implies(And(0 <= i, i < n), And(time_ok_v(tt[i]), Or(in_set24(tt[i]), O_RS.is_Some(a[tt[i]]))))),
+              ForAll([i, j], Implies(And(0 <= i, i < j, j < n), tod(tt[i]) < tod(tt[j]))))
+    return [(st, PSeq(tt, n, 'val', True))]
+
+
+def mt_bisect(ex, e, st):
+    outs = []
+    for s1, vals in ex.evs(e.args, st):
+        arr, n = seq_of(vals[0], s1); x = to_val(vals[1], s1)
+        r = fresh('bis', IntSort()); j = Int('j!bs'); s1 = s1.copy()
+        s1.assume(0 <= r, r <= n, ForAll([j], Implies(And(0 <= j, j < n), (tod(arr[j]) < tod(x)) == (j < r))))
+        outs.append((s1, ZV('int', r)))
+    return outs
+
+
+def mt_recalc(ex, e, st):
+    blk = as_kind(st.env['blk'], Ref(), st)
+    outs = []
+    for s1, vals in ex.evs(e.args, st):
+        s1 = s1.copy(); ex.emit(s1, rec('recalc', Val.Obj(blk), to_val(vals[0], s1)))
+        for f in DELIVERY: s1.havoc_field(f)
+        outs.append((s1, P_NONE))
+        bad = s1.copy(); bad.label('recalc:raises')
+        outs.append((bad, Raise(PExc('DeliveryError', val=Val.Obj(fresh('exc', IntSort())), where='callee'))))
+    return outs
+
+
+def mt_all_blocks(ex, e, st):
+    """set.union(*self._alarms.values()): all registered blocks; TypeError when there is no alarm at all (no argument)"""
+    me = as_kind(st.env['self'], Ref(), st)
+    a = alarms(View(st), me)
+    x, b = Const('x!ub', Val), Int('b!ub')
+    some = Exists([x], O_RS.is_Some(a[x]))
+    st = st.copy(); st.ghost['in_reset'] = True
+    # set.union() needs at least one argument: decided from the quantifier-free path facts and the table invariant alone
+    slim = st.copy(); slim.pc = [f for f in st.pc if not has_quant(f)] + [alarms_wf(View(st), me)]
+    ex.oblige('call:set.union/pre:at_least_one_set_is_given', slim, some, kind='pre')
+    ok = st.copy(); ok.assume(some)
+    bad = st.copy(); bad.assume(Not(some)); bad.label('set.union:no_argument')
+    outs = []
+    if ex.feasible(ok): outs.append((ok, PSet(z3.Lambda([b], Exists([x], And(O_RS.is_Some(a[x]), O_RS.v(a[x])[b]))), 'ref')))
+    if ex.feasible(bad): outs.append((bad, Raise(PExc('TypeError', val=Val.Obj(fresh('exc', IntSort())), where='call'))))
+    return outs
+
+
+def mt_set_union0(ex, e, st):
+    """set().union(*self._alarms.values()): all registered blocks (the empty set when there is no alarm)"""
+    me = as_kind(st.env['self'], Ref(), st)
+    a = alarms(View(st), me)
+    x, b = Const('x!uc', Val), Int('b!uc')
+    st = st.copy(); st.ghost['in_reset'] = True
+    return [(st, PSet(z3.Lambda([b], Exists([x], And(O_RS.is_Some(a[x]), O_RS.v(a[x])[b]))), 'ref'))]
+
+
+def mt_list(ex, e, st):
+    """list(self._alarms[wakeup]): a snapshot of the set (iterated in some order)"""
+    outs = []
+    for s1, vals in ex.evs(e.args, st):
+        outs.append((s1, vals[0]))
+    return outs
+
+
+def mt_sleep(kind):
+    def h(ex, node, st):
+        outs = []
+        args = node.args if kind != 'wait_for' else node.args[1:]
+        for s1, vals in ex.evs(args, st):
+            s1 = s1.copy(); d = as_kind(vals[0], REAL, s1)
+            ex.emit(s1, rec('sleep', a0=Val.R(d), a1=S_(kind)))
+            for f in ('_alarms', 'wq_len', '_value') + DELIVERY: s1.havoc_field(f)          # other tasks: reconfigurations
+            me = as_kind(s1.env['self'], Ref(), s1)
+            s1.assume(alarms_wf(View(s1), me))
+            # the task-local flags are not visible to other tasks
+            for name in ('reset', 'reload'):
+                fl = as_kind(st.env[name], Ref(), st)
+                s1.heap['_value'] = Store(s1.heap['_value'], fl, st.readz('_value', fl))
+            if kind == 'wait_for':
+                a = s1.copy(); a.label('woken_for_reload'); outs.append((a, ZV('val', Val.VNone)))
+                b = s1.copy(); b.label('timeout'); outs.append((b, Raise(PExc('TimeoutError', val=Val.Obj(fresh('exc', IntSort())), where='callee'))))
+            else:
+                outs.append((s1, P_NONE))
+            ca = s1.copy(); ca.label('cancelled'); outs.append((ca, Raise(PExc('CancelledError', val=Val.Obj(fresh('exc', IntSort())), where='callee'))))
+        return outs
+    return h
+
+
+def mt_time_sleep(ex, e, st):
+    outs = []
+    for s1, vals in ex.evs(e.args, st):
+        s1 = s1.copy(); ex.emit(s1, rec('sleep', a0=Val.R(as_kind(vals[0], REAL, s1)), a1=S_('blocking')))
+        outs.append((s1, P_NONE))
+    return outs
+
+
+MT_EFFECTS = tuple(dict.fromkeys(DELIVERY + ('_alarms', 'wq_len', '_value')))
+
+
+@contract('Cron._maintask', qual=QC + '_maintask', modifies=MT_EFFECTS, self_cls='Cron')
+def _maintask(c):
+    me = c.z('self')
+    c.requires('table_well_formed', alarms_wf(c.S, me))
+    c.ensures('never_returns', BoolVal(False))
+    c.raises('CancelledError', unchanged=False, label='runs_until_cancelled')
+    c.raises('DeliveryError', unchanged=False, label='a_block_failed_to_deliver_its_output_events')
+    if not c.verifying: return
+    def expected(k, r, st):
+        g = st.ghost
+        fn = z3.simplify(Rec.fn(r)).as_string()
+        nowt = dt_time_of(to_val(st.env['nowdt'], st))
+        wake = to_val(st.env['wakeup'], st)
+        ahead = cyc(tod(wake) - tod(nowt))            # > 0: the wake-up time is still ahead; <= 0: it has been reached
+        if fn == 'sleep':
+            d = Val.r(Rec.a0(r))
+            return [('qf:sleeps_only_while_the_wakeup_time_is_ahead_and_never_beyond_it',
+                     Implies(And(ahead <= 3600, ahead >= -3600), And(ahead > 0, Implies(Rec.a1(r) != S_('wait_for'), d <= ahead))))]
+        if fn == 'recalc':
+            if g['in_reset']:
+                return [('after_a_clock_problem_every_registered_block_is_recalculated_for_the_current_time', Rec.a0(r) == to_val(st.env['nowdt'], st))]
+            return [('scheduled_recalculation_happens_just_after_its_time', And(Rec.a0(r) == to_val(st.env['nowdt'], st), ahead <= 0, ahead >= -2.5)),
+                    ('scheduled_recalculation_is_for_the_blocks_registered_for_that_time', registered(View(st), me, wake, Val.ref(Rec.recv(r))))]
+        return [('no_other_call', BoolVal(False))]
+    c.expect_trace(expected, None, normal_len=None, predicate=True)
+
+
+def inv_maintask(lc):
+    st = lc.st; s = st.st
+    me = as_kind(lc.pre.args['self'], Ref())
+    reload, reset = as_kind(lc.local('reload'), Ref(), s), as_kind(lc.local('reset'), Ref(), s)
+    tt = lc.local('timetable'); idx = to_val(lc.local('index'), s)
+    i, j = Int('i!im'), Int('j!im')
+    out = [('alarm_table_well_formed', alarms_wf(st, me)),
+           ('flags', And(reload != reset, Not(st.f('_value', reset)), reload == as_kind(lc.entry_local('reload'), Ref(), lc.entry.st),
+                         reset == as_kind(lc.entry_local('reset'), Ref(), lc.entry.st)))]
+    arr, n = seq_of(tt, s)
+    tlen = to_val(lc.local('tlen'), s)
+    rl = st.f('_value', reload)
+    out.append(('timetable_loaded_or_reload_pending', Or(rl, And(n >= 24, tlen == Val.I(n),
+                                                              Or(idx == Val.VNone, And(Val.is_I(idx), 0 <= Val.i(idx), Val.i(idx) < n))))))
+    out.append(('timetable_entries_are_times', Or(rl, ForAll([i], Implies(And(0 <= i, i < n), time_ok_v(arr[i]))))))
+    out.append(('timetable_is_strictly_increasing', Or(rl, ForAll([i, j], Implies(And(0 <= i, i < j, j < n), tod(arr[i]) < tod(arr[j]))))))
+    return out
+
+
+def for_step(ex, s, st, it):
+    """`for step in range(3)`: cut by an invariant instead of being unrolled (one generic step)"""
+    from pyvc import loops
+    jj = fresh('j', IntSort())
+    return loops.for_seq(ex, s, st, PSeq(z3.Lambda([jj], Val.I(jj)), IntVal(3), 'val'))
+
+
+def inv_steps(lc):
+    st = lc.st; s = st.st
+    me = as_kind(lc.pre.args['self'], Ref())
+    reload, reset = as_kind(lc.local('reload'), Ref(), s), as_kind(lc.local('reset'), Ref(), s)
+    nowdt, nowt, wake = to_val(lc.local('nowdt'), s), to_val(lc.local('nowt'), s), to_val(lc.local('wakeup'), s)
+    tt = lc.local('timetable'); idx = to_val(lc.local('index'), s)
+    arr, n = seq_of(tt, s); tlen = to_val(lc.local('tlen'), s)
+    i, j = Int('i!is'), Int('j!is')
+    e = lc.entry.st
+    return [('step_two_always_ends_the_wait', lc.i <= 2),
+            ('alarm_table_well_formed', alarms_wf(st, me)),
+            ('flags_clear', And(reload != reset, Not(st.f('_value', reset)), Not(st.f('_value', reload)),
+                                reload == as_kind(lc.entry_local('reload'), Ref(), e), reset == as_kind(lc.entry_local('reset'), Ref(), e))),
+            ('the_clock_reading', And(datetime_ok(nowdt), nowt == dt_time_of(nowdt), time_ok_v(nowt))),
+            ('the_wakeup_time', And(time_ok_v(wake), Val.is_I(idx), 0 <= Val.i(idx), Val.i(idx) < n, wake == arr[Val.i(idx)],
+                                    wake == to_val(lc.entry_local('wakeup'), e), idx == to_val(lc.entry_local('index'), e))),
+            ('timetable', And(n >= 24, tlen == Val.I(n), arr == seq_of(lc.entry_local('timetable'), e)[0], n == seq_of(lc.entry_local('timetable'), e)[1],
+                              ForAll([i], Implies(And(0 <= i, i < n), time_ok_v(arr[i]))),
+                              ForAll([i, j], Implies(And(0 <= i, i < j, j < n), tod(arr[i]) < tod(arr[j])))))]
+
+
+def inv_reset_recalc(lc):
+    st = lc.st
+    me = as_kind(lc.pre.args['self'], Ref())
+    return [('alarm_table_well_formed', alarms_wf(st, me)), ('in_reset', BoolVal(st.st.ghost['in_reset'] is True))]
+
+
+def inv_sched_recalc(lc):
+    st = lc.st
+    me = as_kind(lc.pre.args['self'], Ref())
+    return [('alarm_table_well_formed', alarms_wf(st, me))]
+
+
+def verify_maintask(run):
+    from pyvc import scan
+    H = {'attr': {'hour': time_attr(t_hour), 'minute': time_attr(t_min), 'second': time_attr(t_sec), 'microsecond': time_attr(t_us),
+                  'debug': lambda ex, st, o: [(st, PConst(False))]},
+         'await': awaits({'asyncio.sleep(sleeptime)': mt_sleep('sleep'), 'asyncio.wait_for(*': mt_sleep('wait_for')})}
+    run.verify('Cron._maintask', cls='Cron', hooks=H, ghost={'in_reset': False},
+               invariants={'while True': inv_maintask, 'for step in range(3)': inv_steps, 'for blk in set.union(*self._alarms.values())': inv_reset_recalc,
+                           'for blk in set().union(*self._alarms.values())': inv_reset_recalc,
+                           'for blk in list(self._alarms[wakeup])': inv_sched_recalc},
+               calls={'for:for step in range(3)': for_step, 'Flag': new_flag, 'sorted': mt_sorted, 'self.dtnow': mt_dtnow, 'nowdt.time': now_time, 'bisect.bisect_left': mt_bisect,
+                      'time.sleep': mt_time_sleep, 'set.union': mt_all_blocks, 'set().union': mt_set_union0, 'list': mt_list,
+                      'blk.recalc': mt_recalc, 'hasattr': lambda ex, e, st: [(st, PConst(True))], 'nowdt.isoweekday': now_isoweekday})
